@@ -1,9 +1,16 @@
 use crate::framework::Monitor;
 
+pub mod behav;
 pub mod c12;
+pub mod exec;
+pub mod triggers;
 
 pub fn make(id: &str) -> Option<Box<dyn Monitor>> {
     match id {
+        "C01" => Some(Box::new(behav::Behav::new(behav::Kind::C01))),
+        "C06" => Some(Box::new(behav::Behav::new(behav::Kind::C06))),
+        "C16" => Some(Box::new(behav::Behav::new(behav::Kind::C16))),
+        "C17" => Some(Box::new(behav::Behav::new(behav::Kind::C17))),
         "C12" => Some(Box::new(c12::C12::default())),
         _ => None,
     }
